@@ -22,7 +22,7 @@ pub const REPLAY: Option<fn(&mut Ctx, &Args, &serde_json::Value, Option<&[u8]>)>
 
 pub fn run(ctx: &mut Ctx, _args: &Args) {
     ctx.policy = PanicPolicy::Any;
-    ctx.rule = "distinct cases (digest of the input) where: a store case has >= 2 distinct delta sets and the builder merged duplicates, split into several subtables, pruned regions or mixed word sizes; \
+    ctx.rule = "distinct cases (digest of the input; the per-location / per-value kinds keep every 16th resp. 32nd digest, full counts are in events.delta_locations_with_partial_scalar, norm_values_strictly_inside_regular_axis, metrics_nonzero_delta_with_partial_scalar) where: a store case has >= 2 distinct delta sets and the builder merged duplicates, split into several subtables, pruned regions or mixed word sizes; \
                 or a (row, location) has a non-zero exact delta with a partially active region; or a user coordinate lies strictly inside a regular axis (not at min/default/max); \
                 or a (glyph, location) has a non-zero metric delta with a partially active region; or a DeltaSetIndexMap has > 1 entry"
         .into();
@@ -39,12 +39,12 @@ pub fn run(ctx: &mut Ctx, _args: &Args) {
 
     // (a) + (b)
     let classes: [(&'static str, usize, usize); 6] = [
-        ("tiny", 80_000, 600_000),
-        ("small", 50_000, 400_000),
-        ("wide", 3_000, 24_000),
-        ("many-shapes", 480, 3_200),
-        ("many-rows", 320, 1_600),
-        ("huge", 0, 4),
+        ("tiny", 80_000, 1_500_000),
+        ("small", 50_000, 1_000_000),
+        ("wide", 3_000, 60_000),
+        ("many-shapes", 480, 8_000),
+        ("many-rows", 320, 4_000),
+        ("huge", 0, 8),
     ];
     let mut item = 0usize;
     for (class, q, t) in classes {
@@ -71,7 +71,7 @@ pub fn run(ctx: &mut Ctx, _args: &Args) {
     }
 
     // DeltaSetIndexMap
-    let n = ctx.tier.pick(12_000usize, 100_000);
+    let n = ctx.tier.pick(12_000usize, 250_000);
     for i in 0..n {
         item += 1;
         if !ctx.mine(item) {
@@ -85,7 +85,7 @@ pub fn run(ctx: &mut Ctx, _args: &Args) {
     if ctx.mine(0) {
         wl_norm::probe_large_span(ctx);
     }
-    let n = ctx.tier.pick(40_000usize, 400_000);
+    let n = ctx.tier.pick(40_000usize, 1_000_000);
     for i in 0..n {
         item += 1;
         if !ctx.mine(item) {
@@ -96,7 +96,7 @@ pub fn run(ctx: &mut Ctx, _args: &Args) {
     }
 
     // (d) built fonts
-    let n = ctx.tier.pick(30_000usize, 250_000);
+    let n = ctx.tier.pick(30_000usize, 600_000);
     for i in 0..n {
         item += 1;
         if !ctx.mine(item) {
